@@ -48,7 +48,7 @@ type AdvStats struct {
 	PerType   map[string]int `json:"calls_per_type"`
 }
 
-var advPaths = []string{"", "/", ".", "..", "/w", "/w/a", "/w/d", "/w/d/..", "w/a", "/w/a/x", "/w/l", "/w/d/f", "/w/nope/x", "//w//a/", "/w/B", "/../w"}
+var advPaths = []string{"", "/", ".", "..", "/w", "/w/a", "/w/d", "/w/d/..", "w/a", "/w/a/x", "/w/l", "/w/l/x", "/w/d/f", "/w/nope/x", "//w//a/", "/w/B", "/../w"}
 
 var (
 	tyError    = reflect.TypeOf((*error)(nil)).Elem()
